@@ -293,6 +293,7 @@ class PipeEnd(object):
         self.reset = False
         self.sent = bytearray()
         self.seg = None            # max bytes returned by one recv (segmentation), None = all
+        self.corked = bytearray()  # with net.cork: bytes written but not yet delivered (coalescing transport)
 
     def readable(self):
         return bool(self.inq) or self.eof or self.reset
@@ -305,16 +306,26 @@ class PipeEnd(object):
             raise OSError(104, 'Connection reset by peer')
         self.sent += data
         self.net.wire.append((self.name, bytes(data)))
+        if self.net.cork:
+            self.corked += data        # delivered when the writer goes idle, reads, or closes: several PDUs arrive in one read
+            return
         if self.peer is not None and not self.peer.closed:
             self.peer.inq += data
         elif self.net.fail_send_after_close:
             raise OSError(32, 'Broken pipe')
+
+    def flush(self):
+        if self.corked:
+            if self.peer is not None and not self.peer.closed:
+                self.peer.inq += self.corked
+            self.corked = bytearray()
 
     send = sendall
 
     def recv(self, n):
         if self.closed:
             raise OSError(9, 'Bad file descriptor')
+        self.flush()
         if not self.readable():
             cur().point('sock.recv', cond=self.readable)
         if self.inq:
@@ -334,11 +345,13 @@ class PipeEnd(object):
         s = Sched.current
         if s is not None and not s.aborting:
             s.point('sock.close')
+        self.flush()
         self.closed = True
         if self.peer is not None:
             self.peer.eof = True
 
     def shutdown(self, how):
+        self.flush()
         if self.peer is not None:
             self.peer.eof = True
 
@@ -369,6 +382,7 @@ class Net(object):
         self.fail_send_after_close = False
         self.nconn = 0
         self.seg = None
+        self.cork = False
 
     def listen(self, addr, handler):
         self.listeners[addr] = handler
@@ -476,6 +490,8 @@ def apply_patches():
         if busy():
             s.point('dul.loop')
         else:
+            if prov.dul_socket is not None and hasattr(prov.dul_socket, 'flush'):
+                prov.dul_socket.flush()
             # an idle provider polls select() every 50 ms; modelled as blocked until there is something to do or ARTIM is due
             t = prov.timer
             dl = None if t._start_time is None else t._start_time + t._max_seconds + 0.05
